@@ -21,6 +21,8 @@ import (
 	"strings"
 	"time"
 
+	corestore "cosmossdk.io/core/store"
+
 	"github.com/cosmos/iavl"
 	idb "github.com/cosmos/iavl/db"
 	"github.com/cosmos/iavl/internal/vrt"
@@ -341,6 +343,86 @@ func harnesses() []harness {
 				if pinnedThroughout {
 					if delErr == nil {
 						rw.add("DeleteVersionsTo(2) succeeded although version 2 was pinned by an open export during the whole call (opened at step %d, deletion steps %d..%d, closed at step %d)", expOpened, delStart, delEnd, expClosed)
+					}
+					if nextErr != nil || nodes != want {
+						re.add("export of the pinned version 2 delivered %d of %d nodes (error: %v)", nodes, want, nextErr)
+					}
+					var r2 rec
+					epilogue(&r2, t, map[int64]map[string]string{1: c06Contents[1], 2: c06Contents[2], 3: c06Contents[3]})
+					rw.lines = append(rw.lines, r2.lines...)
+				} else if delErr == nil {
+					var r2 rec
+					epilogue(&r2, t, map[int64]map[string]string{3: c06Contents[3]})
+					rw.lines = append(rw.lines, r2.lines...)
+				}
+				return strings.Join(append(rw.lines, re.lines...), "; ")
+			}
+		}},
+		{"H14 writer(DeleteVersionsTo(2)) || exporter(Export v2, read all, Close) || closer(second, finished export of v2: Close, Close): pinning with two exports of one version", func(cfg c06Cfg) ([]func(), func() string) {
+			// As H4, with a second export of the same version that was opened and read to its end before the
+			// threads start; a third thread closes it twice (Close is documented as safe to repeat). The pin of
+			// the export that is still open must survive that.
+			t := prelude(cfg)
+			t2, err := t.GetImmutable(2)
+			if err != nil {
+				panic(err)
+			}
+			other, err := t2.Export()
+			if err != nil {
+				panic(err)
+			}
+			for {
+				if _, err := other.Next(); err != nil {
+					break
+				}
+			}
+			var rw, re rec
+			var delStart, delEnd, expOpened, expClosed int32 = -1, -1, -1, -1
+			var delErr error
+			var nodes int
+			var nextErr error
+			writer := func() {
+				delStart = vrt.StepIndex()
+				delErr = t.DeleteVersionsTo(2)
+				delEnd = vrt.StepIndex()
+			}
+			exporter := func() {
+				e, err := t2.Export()
+				if err != nil {
+					re.add("exporter: Export(v2): %v", err)
+					return
+				}
+				expOpened = vrt.StepIndex()
+				for {
+					n, err := e.Next()
+					if err != nil {
+						if !errors.Is(err, iavl.ErrorExportDone) {
+							nextErr = err
+						}
+						break
+					}
+					_ = n
+					nodes++
+				}
+				expClosed = vrt.StepIndex()
+				e.Close()
+			}
+			closer := func() {
+				other.Close()
+				vrt.Yield()
+				other.Close()
+			}
+			return []func(){writer, exporter, closer}, func() string {
+				const want = 7 // version 2 = {a:1,b:2,c:1,d:1}: 4 leaves + 3 inner nodes
+				pinnedThroughout := expOpened >= 0 && expOpened <= delStart && expClosed >= delEnd
+				if pinnedThroughout {
+					observe("pinned-during-the-whole-deletion(err=%v)", delErr != nil)
+				} else {
+					observe("not-pinned-throughout(err=%v)", delErr != nil)
+				}
+				if pinnedThroughout {
+					if delErr == nil {
+						rw.add("DeleteVersionsTo(2) succeeded although version 2 was pinned by an open export during the whole call (opened at step %d, deletion steps %d..%d, closed at step %d); another, finished export of the same version was closed twice meanwhile", expOpened, delStart, delEnd, expClosed)
 					}
 					if nextErr != nil || nodes != want {
 						re.add("export of the pinned version 2 delivered %d of %d nodes (error: %v)", nodes, want, nextErr)
@@ -884,7 +966,184 @@ func harnesses() []harness {
 				return strings.Join(append(append(rw.lines, rr.lines...), re.lines...), "; ")
 			}
 		}},
+		{"B1 backend: writer(batch{Set k1, Delete k0, Set k2, Set k3}.Write) || reader(ordered point reads, forward scan, reverse scan): a batch is applied atomically", func(cfg c06Cfg) ([]func(), func() string) {
+			db, quiesce := c18ConcBackend(cfg)
+			pre := map[string]string{"k0": "old", "k1": "old", "k2": "old"}
+			post := map[string]string{"k1": "new", "k2": "new", "k3": "new"}
+			for _, k := range []string{"k0", "k1", "k2"} {
+				if err := db.Set([]byte(k), []byte(pre[k])); err != nil {
+					panic(err)
+				}
+			}
+			quiesce()
+			var rw, rr rec
+			writer := func() {
+				b := db.NewBatch()
+				defer b.Close()
+				if err := b.Set([]byte("k1"), []byte("new")); err != nil {
+					rw.add("batch.Set(k1): %v", err)
+				}
+				if err := b.Delete([]byte("k0")); err != nil {
+					rw.add("batch.Delete(k0): %v", err)
+				}
+				if err := b.Set([]byte("k2"), []byte("new")); err != nil {
+					rw.add("batch.Set(k2): %v", err)
+				}
+				if err := b.Set([]byte("k3"), []byte("new")); err != nil {
+					rw.add("batch.Set(k3): %v", err)
+				}
+				if err := b.Write(); err != nil {
+					rw.add("batch.Write: %v", err)
+				}
+			}
+			reader := func() {
+				// point reads in the order of the batch: once one of them shows the state after the batch, the batch
+				// has been written, so every later read must show it too
+				var applied []bool
+				var seen []string
+				for _, k := range []string{"k1", "k0", "k2", "k3"} {
+					v, err := db.Get([]byte(k))
+					if err != nil {
+						rr.add("Get(%s): %v", k, err)
+						return
+					}
+					want, inPost := post[k]
+					a := (inPost && string(v) == want) || (!inPost && v == nil)
+					applied = append(applied, a)
+					seen = append(seen, fmt.Sprintf("%s=%q", k, v))
+				}
+				for i := range applied {
+					for j := i + 1; j < len(applied); j++ {
+						if applied[i] && !applied[j] {
+							rr.add("point reads in batch order saw a partially applied batch: %v", seen)
+						}
+					}
+				}
+				for _, reverse := range []bool{false, true} {
+					got, err := c18ConcScan(db, reverse)
+					switch {
+					case err != nil:
+						rr.add("scan(reverse=%v): %v", reverse, err)
+					case sameMap(got, pre):
+						observe("scan=pre")
+					case sameMap(got, post):
+						observe("scan=post")
+					default:
+						rr.add("scan(reverse=%v) saw a partially applied batch: %v (before: %v, after: %v)", reverse, got, pre, post)
+					}
+				}
+			}
+			return []func(){writer, reader}, func() string {
+				var re rec
+				if got, err := c18ConcScan(db, false); err != nil || !sameMap(got, post) {
+					re.add("final contents %v (err %v), expected %v", got, err, post)
+				}
+				return strings.Join(append(append(rw.lines, rr.lines...), re.lines...), "; ")
+			}
+		}},
+		{"B2 backend: writer(Set k1, Delete k0, Set k3) || reader(forward scan, reverse scan): an open iterator is a snapshot", func(cfg c06Cfg) ([]func(), func() string) {
+			db, quiesce := c18ConcBackend(cfg)
+			states := []map[string]string{
+				{"k0": "old", "k1": "old", "k2": "old"},
+				{"k0": "old", "k1": "new", "k2": "old"},
+				{"k1": "new", "k2": "old"},
+				{"k1": "new", "k2": "old", "k3": "new"},
+			}
+			for _, k := range []string{"k0", "k1", "k2"} {
+				if err := db.Set([]byte(k), []byte(states[0][k])); err != nil {
+					panic(err)
+				}
+			}
+			quiesce()
+			var rw, rr rec
+			writer := func() {
+				if err := db.Set([]byte("k1"), []byte("new")); err != nil {
+					rw.add("Set(k1): %v", err)
+				}
+				if err := db.Delete([]byte("k0")); err != nil {
+					rw.add("Delete(k0): %v", err)
+				}
+				if err := db.Set([]byte("k3"), []byte("new")); err != nil {
+					rw.add("Set(k3): %v", err)
+				}
+			}
+			reader := func() {
+				last := 0
+				for _, reverse := range []bool{false, true} {
+					got, err := c18ConcScan(db, reverse)
+					if err != nil {
+						rr.add("scan(reverse=%v): %v", reverse, err)
+						continue
+					}
+					which := -1
+					for i := last; i < len(states); i++ {
+						if sameMap(got, states[i]) {
+							which = i
+							break
+						}
+					}
+					if which < 0 {
+						rr.add("scan(reverse=%v) = %v is not the contents after any prefix of the writer's operations at or after the previously seen one (%d)", reverse, got, last)
+						continue
+					}
+					observe("scan=state%d", which)
+					last = which
+				}
+			}
+			return []func(){writer, reader}, func() string {
+				var re rec
+				if got, err := c18ConcScan(db, false); err != nil || !sameMap(got, states[3]) {
+					re.add("final contents %v (err %v), expected %v", got, err, states[3])
+				}
+				return strings.Join(append(append(rw.lines, rr.lines...), re.lines...), "; ")
+			}
+		}},
 	}
+}
+
+// c18ConcBackend: configuration with the index flag = the bundled MemDB, without = a PrefixDB over it (prefix "p";
+// the parent also holds foreign keys around the prefix). quiesce waits for traversal goroutines of the prelude.
+func c18ConcBackend(cfg c06Cfg) (corestore.KVStoreWithBatch, func()) {
+	mdb := idb.NewMemDB()
+	quiesce := func() {
+		if q, ok := interface{}(mdb).(interface{ VerifQuiesce() }); ok {
+			q.VerifQuiesce()
+		}
+	}
+	if cfg.Fast {
+		return mdb, quiesce
+	}
+	for _, k := range []string{"o", "p", "q", "ozz"} {
+		if err := mdb.Set([]byte(k), []byte("foreign")); err != nil {
+			panic(err)
+		}
+	}
+	return idb.NewPrefixDB(mdb, []byte("p")), quiesce
+}
+
+func c18ConcScan(db corestore.KVStoreWithBatch, reverse bool) (map[string]string, error) {
+	var it corestore.Iterator
+	var err error
+	if reverse {
+		it, err = db.ReverseIterator(nil, nil)
+	} else {
+		it, err = db.Iterator(nil, nil)
+	}
+	if err != nil {
+		return nil, err
+	}
+	defer it.Close()
+	out := map[string]string{}
+	prev := ""
+	for ; it.Valid(); it.Next() {
+		k := string(it.Key())
+		if _, dup := out[k]; dup || (prev != "" && ((!reverse && k <= prev) || (reverse && k >= prev))) {
+			return nil, fmt.Errorf("iteration out of order or duplicate at %q after %q", k, prev)
+		}
+		out[k] = string(it.Value())
+		prev = k
+	}
+	return out, it.Error()
 }
 
 // ---- exploration ----
@@ -1054,7 +1313,7 @@ func exploreSched(h harness, cfg c06Cfg, bound int, prefix []int32, st *schedSta
 
 // c06Three: harnesses with three (or more) scheduler threads; they get one preemption less and more shards.
 func c06Three(name string) bool {
-	for _, p := range []string{"H3 ", "H4 ", "H5 ", "H8 ", "H10 ", "H11 ", "H12 ", "H13 "} {
+	for _, p := range []string{"H3 ", "H4 ", "H5 ", "H8 ", "H10 ", "H11 ", "H12 ", "H13 ", "H14 ", "B1 ", "B2 "} {
 		if strings.HasPrefix(name, p) {
 			return true
 		}
@@ -1123,6 +1382,14 @@ func parseRaces(prefix string) map[string]string {
 
 func init() {
 	checks["C06"] = func(c *Ctx) *Result {
+		return schedCheck(c, "C06", func(name string) bool { return strings.HasPrefix(name, "H") })
+	}
+}
+
+// schedCheck explores every selected harness under the controlled scheduler (plain and -race build) and turns
+// the results into violations of property prop.
+func schedCheck(c *Ctx, prop string, sel func(name string) bool) *Result {
+	{
 		hs := harnesses()
 		cfgs := c06Cfgs()
 		bound := 2
@@ -1144,6 +1411,9 @@ func init() {
 		diverged := 0
 		skipped := []string{}
 		for hi := range hs {
+			if !sel(hs[hi].name) {
+				continue
+			}
 			if only := os.Getenv("VERIF_C06_ONLY"); only != "" && !strings.HasPrefix(hs[hi].name, only) {
 				continue // development aid
 			}
@@ -1151,7 +1421,7 @@ func init() {
 				skipped = append(skipped, hs[hi].name+": the export.go rewrite did not apply to this tree")
 				continue
 			}
-			if strings.HasPrefix(hs[hi].name, "H4") && os.Getenv("VERIF_H4") != "1" {
+			if (strings.HasPrefix(hs[hi].name, "H4") || strings.HasPrefix(hs[hi].name, "H14")) && os.Getenv("VERIF_H4") != "1" {
 				skipped = append(skipped, hs[hi].name+": the export.go rewrite did not apply to this tree")
 				continue
 			}
@@ -1159,7 +1429,7 @@ func init() {
 				skipped = append(skipped, hs[hi].name+": the export.go / nodedb.go rewrites did not apply to this tree")
 				continue
 			}
-			if strings.HasPrefix(hs[hi].name, "H13") && os.Getenv("VERIF_H13") != "1" {
+			if (strings.HasPrefix(hs[hi].name, "H13") || strings.HasPrefix(hs[hi].name, "B")) && os.Getenv("VERIF_H13") != "1" {
 				skipped = append(skipped, hs[hi].name+": the db/memdb.go rewrite did not apply to this tree")
 				continue
 			}
@@ -1169,6 +1439,9 @@ func init() {
 			}
 			for ci := range cfgs {
 				three := c06Three(hs[hi].name)
+				if strings.HasPrefix(hs[hi].name, "B") && ci != 1 && ci != 2 {
+					continue // backend harnesses: configuration 1 = MemDB, configuration 2 = PrefixDB over MemDB
+				}
 				if c.Tier == "quick" && three && ci != 1 && ci != 2 {
 					continue // quick: the 3-thread harnesses run under two configurations (cache 100 + index, cache 0 without)
 				}
@@ -1201,6 +1474,9 @@ func init() {
 			three := c06Three(hs[j.hi].name)
 			if three {
 				b-- // three threads: one preemption less
+			}
+			if strings.HasPrefix(hs[j.hi].name, "B") {
+				b += 2 // backend harnesses have a few dozen scheduling points
 			}
 			if b < 1 {
 				b = 1
@@ -1313,7 +1589,7 @@ func init() {
 					continue
 				}
 				text := fmt.Sprintf("%s cache=%d fast=%v cold=%v schedule(thread order)=%v: %s", v.Harness, v.Cfg.Cache, v.Cfg.Fast, v.Cfg.Cold, v.Threads, v.What)
-				if id := c.KF.MatchRaw("C06", text); id != "" {
+				if id := c.KF.MatchRaw(prop, text); id != "" {
 					c.KF.NoteRaw(id, text)
 					continue
 				}
@@ -1338,7 +1614,7 @@ func init() {
 		for sig, where := range raceSigs {
 			sigs = append(sigs, sig)
 			text := "data race " + sig + " :: " + where
-			if id := c.KF.MatchRaw("C06", "data race "+sig); id != "" {
+			if id := c.KF.MatchRaw(prop, "data race "+sig); id != "" {
 				c.KF.NoteRaw(id, oneLine(text))
 				continue
 			}
@@ -1351,7 +1627,7 @@ func init() {
 			"explanation_c06": "every schedule (choice sequence at lock acquisitions and storage calls) with at most the stated number of preemptions is executed on the real code; the -race build runs the same enumeration with the race detector active inside each schedule (the scheduler's hand-off uses raw futex calls from norace code and adds no happens-before edge)"}
 		res.Assumptions = []string{
 			"scheduling points: every Lock/RLock of the sync primitives used by iavl (rebuilt against the shim) and every storage call; code between two points runs atomically in the explorer (races inside such blocks are the race detector's job)",
-			"harnesses H1-H13: 2-3 threads, <= 3 operations each, one writer; H4 (export pinning vs pruning: the exporter goroutine and its channel run under the scheduler) and H5 (background pruning loop, SetCommitting/UnsetCommitting) use the rewritten export.go / nodedb.go of the sched build and are skipped (recorded in skipped_harnesses) if the rewrite does not apply to the current tree",
+			"harnesses H1-H14: 2-3 threads, <= 3 operations each, one writer; H4 (export pinning vs pruning: the exporter goroutine and its channel run under the scheduler) and H5 (background pruning loop, SetCommitting/UnsetCommitting) use the rewritten export.go / nodedb.go of the sched build and are skipped (recorded in skipped_harnesses) if the rewrite does not apply to the current tree",
 			"the storage is check/vstore (MemDB-like locking, snapshot iterators) in H1-H12; H13 runs over the bundled db.MemDB rebuilt against the shim (its RWMutex, the traversal goroutine of every iterator and the iterator channel are scheduling points; look-ahead buffer configured down from 64 to 1), skipped and recorded if db/memdb.go no longer has the expected shape",
 		}
 		return res
